@@ -151,7 +151,7 @@ var properties = map[string]*propSpec{
 	"C08": {
 		Title: "Steps compose: P followed by Q equals Q applied to each result of P",
 		Checks: []checkSpec{
-			{Test: "TestC08_Compose", Quick: 20000, Thorough: 300000, Rapid: true},
+			{Test: "TestC08_Compose", Quick: 12000, Thorough: 300000, Rapid: true},
 		},
 		Assumptions: assume("relational oracle: three retrievals of the library are compared with each other; a defect hitting all three equally is C01's business"),
 		Floors: []floor{
